@@ -97,7 +97,8 @@ WholeIsD(pos, v) == pos = "beforefilter" /\ TextOf(v) = <<>>
 
 \* non-string values whose text form holds markup
 Markup == {<<60, 98, 62>>, <<39, 120>>, <<97, 38, 98>>, <<34>>}
-GoValues == {VGo(k, m) : k \in {"bytes", "named", "stringer", "err"}, m \in Markup}
+\* (enum / uenum / fenum: types whose underlying kind is int / uint8 / float64 and whose String method gives the text)
+GoValues == {VGo(k, m) : k \in {"bytes", "named", "stringer", "err", "enum", "uenum", "fenum"}, m \in Markup}
 \* integers beyond the range of int64 / at its ends
 BigInts == {VBig(<<57, 50, 50, 51, 51, 55, 50, 48, 51, 54, 56, 53, 52, 55, 55, 53, 56, 48, 56>>),       \* 9223372036854775808
             VBig(<<49, 56, 52, 52, 54, 55, 52, 52, 48, 55, 51, 55, 48, 57, 53, 53, 49, 54, 49, 53>>),    \* 18446744073709551615
